@@ -216,7 +216,7 @@ package task
 //@ ghost var bgCtx context.Context scratch
 //@ ghost var ownCtx context.Context scratch
 //@ func (*Executor).runDeferred
-//@   modifies heap, fs_exists, fs_ver
+//@   modifies heap, fs_exists, fs_ver, om_has, om_val, om_len, om_key
 //@   preserves $RUNDATA
 //@   blocks
 //@   requires semLimited() ==> tok == 1
